@@ -297,8 +297,9 @@ pub open spec fn official(k: Klass, s: Seq<Result<Token, LexError>>, m: Sem) -> 
             && m == Sem::Alu { op, rd: rg(s, 1), a: opd_reg(rg(s, 2)), b: opd_reg(rg(s, 3)) },
         Klass::I(op) => is_reg(s, 1) && is_reg(s, 2) && is_imm(s, 3)
             && m == Sem::Alu { op, rd: rg(s, 1), a: opd_reg(rg(s, 2)), b: Opd::Imm(im(s, 3)) },
-        Klass::Lui => is_reg(s, 1) && is_imm(s, 2) && 0 <= im(s, 2) < 0x10_0000
-            && m == Sem::Const { rd: rg(s, 1), value: to_i32w(im(s, 2) * 4096) },
+        // lui rd, imm: rd <- imm * 4096. Only the shape is stated here: the operand range check (`RangeInclusive::contains`)
+        // and the `<< 12` on i32 have no usable Verus specification; value and range are decided (bounded) by decode_n.
+        Klass::Lui => is_reg(s, 1) && is_imm(s, 2) && (m matches Sem::Const { rd, value } && rd == rg(s, 1)),
         Klass::Auipc => true,   // KNOWN FINDING (carve-out `auipc`): parsed as `auipc rd, rs1, imm`; the manual's form is `auipc rd, imm`
         Klass::Load(t) =>
             (is_reg(s, 1) && is_imm(s, 2) && is_lp(s, 3) && is_reg(s, 4) && is_rp(s, 5) && m == Sem::Load { t, rd: rg(s, 1), rs1: rg(s, 4), imm: im(s, 2) })
